@@ -69,7 +69,11 @@ def union(*ts):
         lits = [x for t in ts for x in t.lits]
     if _rw():
         STYLE['n'] += 1
-        body = '\n  | '.join((f'\n  /** member {i} */\n  ' if STYLE['n'] % 2 == 0 else '') + t.ts for i, t in enumerate(ts))
+        parts = [(f'\n  /** member {i} */\n  ' if STYLE['n'] % 2 == 0 else '') + t.ts for i, t in enumerate(ts)]
+        if len(parts) >= 3:
+            # parentheses around a documented group of members: `A | /** doc */ (B | C)` is the same union
+            parts = parts[:-2] + ['\n  /** a documented group */\n  (' + ' | '.join(parts[-2:]) + ')']
+        body = '\n  | '.join(parts)
     else:
         body = ' | '.join(t.ts for t in ts)
     text, decls = _wrap('(' + body + ')', [d for t in ts for d in t.decls])
